@@ -1,5 +1,4 @@
 import SJ.Proofs.Subst
-import Std.Tactic.BVDecide
 /-
 The in-place edits of the model (`Iter.setInt/…`, `nopFill`) as statements about located documents:
 C13 (replacement changes exactly the addressed value) and the NOP-fill lemma behind C14.
@@ -7,13 +6,30 @@ C13 (replacement changes exactly the addressed value) and the NOP-fill lemma beh
 namespace SJ.Layout
 open SJ SJ.Generated
 
-/-- [bv_decide] packing and unpacking of tape words -/
+/-- packing and unpacking of tape words (plain arithmetic on `toNat`) -/
+theorem mkWord_toNat' (t : UInt8) (v : UInt64) (h : v.toNat < 2^56) : (mkWord t v).toNat = t.toNat * 2^56 + v.toNat := by
+  unfold mkWord
+  have ht := t.toNat_lt
+  simp only [UInt64.toNat_or, UInt64.toNat_shiftLeft, UInt8.toNat_toUInt64]
+  have e1 : (56 : UInt64).toNat % 64 = 56 := by decide
+  rw [e1, Nat.shiftLeft_eq, Nat.mod_eq_of_lt (by omega), ← Nat.shiftLeft_eq]
+  exact (Nat.shiftLeft_add_eq_or_of_lt h _).symm
 theorem tagOf_mkWord (t : UInt8) (v : UInt64) (h : v < 0x100000000000000) : tagOf (mkWord t v) = t := by
-  unfold tagOf mkWord
-  bv_decide
+  have h' : v.toNat < 2^56 := by rw [UInt64.lt_iff_toNat_lt] at h; exact h
+  apply UInt8.toNat_inj.mp
+  unfold tagOf
+  have ht := t.toNat_lt
+  simp only [UInt64.toNat_toUInt8, UInt64.toNat_shiftRight, mkWord_toNat' t v h']
+  have e1 : (56 : UInt64).toNat % 64 = 56 := by decide
+  rw [e1, Nat.shiftRight_eq_div_pow]
+  omega
 theorem payloadOf_mkWord (t : UInt8) (v : UInt64) (h : v < 0x100000000000000) : payloadOf (mkWord t v) = v := by
-  unfold payloadOf mkWord wJSONVALUEMASK
-  bv_decide
+  have h' : v.toNat < 2^56 := by rw [UInt64.lt_iff_toNat_lt] at h; exact h
+  apply UInt64.toNat_inj.mp
+  unfold payloadOf
+  have e2 : wJSONVALUEMASK.toNat = 2^56 - 1 := by decide
+  simp only [UInt64.toNat_and, mkWord_toNat' t v h', e2, Nat.and_two_pow_sub_one_eq_mod]
+  omega
 
 theorem word_set {pj : PJ} {i : Nat} {v : UInt64} (h : i < pj.tape.size) (k : Nat) :
     word { pj with tape := pj.tape.set i v h } k = if i = k then some v else word pj k := by
